@@ -5,6 +5,11 @@ ROOT = os.path.dirname(os.path.dirname(os.path.abspath(__file__)))
 
 CHECKS = {
  # id: (engine, category, technique, level text, level note, design_ref)
+ "C01": ("agentsim", "exploration",
+   "stateful property-based testing: generated op lists (protocol + schedule) against the real agent model + agent runtime in a harness-owned executor; history-invariant oracle; proptest shrinking",
+   "2e5 (quick) generated operation lists drive the real AgentModel (value lanes with on_event trace) inside the real AgentRouteTask, polled by the harness in a paused, seeded current-thread runtime: 1-4 remotes with byte channels of 1..4096 bytes, generated lane buffer sizes, coop budgets and select seeds, commands from remotes and sets from handlers (programs, cascades). For every (remote, value lane) link session the received bodies must be values the lane held, in non-decreasing history order, and at quiescence the last one must be the lane's current value. Exploration of schedules and histories, not exhaustive.",
+   "Trusts: the agent-side on_event trace as ground truth for the values a lane held (C06 checks the handler order independently); single-threaded op-level interleavings only; runtime HashMap iteration order is not pinned (oracles are schedule independent).",
+   "DESIGN.md §4 C01"),
  "C19": ("pure", "exploration",
    "property-based testing: exhaustive pairs over a boundary pool + proptest random pairs/triples/sort vectors against algebraic-law oracles",
    "Every ordered pair of a 633-value boundary pool (all numeric kinds at their limits, the same number in several kinds, floats next to integers, texts, blobs, records) is checked for eq symmetry, eq=>hash (two hashers), cmp antisymmetry and cmp==Equal<=>eq, also lifted through Item/Slot/Attr/Record; random pairs, 3e5 triples (transitivity) and sort/BTreeMap/HashMap round trips on top. Exploration, not proof: the laws are universally quantified over an infinite domain, so a boundary-exhaustive + random search is the honest level.",
@@ -50,6 +55,7 @@ def main():
             "add_only": True,
         },
         "engines": [
+            {"name": "agentsim", "path": "/verif/harness/vsim", "serves_properties": ["C01","C02","C03","C04","C05","C06","C14","C20"], "kind_free_text": "real AgentRouteTask (agent model + runtime) polled by hand in a paused seeded tokio runtime; harness remotes with partial reads/writes; generated op lists"},
             {"name": "pure", "path": "/verif/harness/c09 c10 c15 c16 c18 c19 (+ vgen, vcommon)", "serves_properties": ["C09","C10","C15","C16","C18","C19"], "kind_free_text": "proptest TestRunner / bounded-exhaustive enumeration over pure functions with explicit oracles"},
         ],
         "checks": checks,
